@@ -55,6 +55,8 @@ func c15Alphabet() []c15Token {
 		add("", "@"+k)
 	}
 	add("", "@Immutable", "@immutablex", "@immutabl", "immutable", "@", "@@immutable", "@IGNORE")
+	// every other keyword in another letter case (so that a wrong-case keyword can be followed by the right-case one)
+	add("", "@Constructor", "@TestOnly", "@PackageOnly", "@Implements", "@MUTABLE")
 	add("id", "New", "x1", "IMM01", "imm", "ALL")
 	add("_id", "_x")
 	add("num", "1x")
@@ -719,7 +721,7 @@ func C15(tier common.Tier) int {
 			fmt.Sprintf("%d sites x 7 keywords, one file per cell, all annotations of the file compared with the expected set. ", len(c15AttachSites()))+
 			"transitions = tokens in the sequence; a state is non-trivial when the reference says the text is an annotation or a near-miss ('@' first after the blanks); distinct non-trivial = distinct (opener, token-class shape); "+
 			"the number of non-trivial texts is in extra.nontrivial_strings, per-kind counts in extra.ref_*.",
-		fmt.Sprintf("all sequences of <= %d tokens over an alphabet of %d tokens (incl. the empty token): 6 blank-like {space, tab, two spaces, FF, VT, NBSP}, 7 keywords, 7 near-keywords, 13 argument words, 6 punctuation marks, 1 prose phrase; "+
+		fmt.Sprintf("all sequences of <= %d tokens over an alphabet of %d tokens (incl. the empty token): 6 blank-like {space, tab, two spaces, FF, VT, NBSP}, 7 keywords, 12 near-keywords (every keyword also in another letter case), 13 argument words, 6 punctuation marks, 1 prose phrase; "+
 			"all sequences of <= %d tokens behind each of %d other openers; all `//@K space` + <= %d tokens and all `// @K space` + <= %d tokens of the %d-token argument sub-alphabet (incl. empty), K over the 7 keywords; attachment matrix complete",
 			depth, nTok, openDepth, len(c15Openers()), argDepth, argDepth2, len(argSet)+1))
 	run.Assume(
